@@ -769,8 +769,8 @@ func (g *Gen) genWager() Op {
 		sel = m.uid*10 + 9
 	}
 	ot := int64(1)
-	if g.chance(0.02) {
-		ot = 4
+	if g.chance(0.05) {
+		ot = pick(g.r, []int64{0, 2, 3, 3, 4, 4, 5}) // the accepted odds types are 0..3
 	}
 	return Op{Kind: "WAG", Signer: signer, Tk: g.ticket(), BetUID: uid, Amount: bi(amt), SelMkt: selm, SelOdds: sel,
 		OddsVal: ov, Mult: mu, Ky: g.kycFor(signer), OddsType: ot, AllOdds: all}
@@ -919,6 +919,17 @@ func (g *Gen) genSubWager() Op {
 	}
 	o.SubDed = sub
 	o.MainDed = new(big.Int).Sub(o.Amount, sub)
+	if g.chance(0.04) && o.Signer >= 0 && int(o.Signer) < len(g.c.Acc) {
+		// the main account pays exactly its whole balance (boundary of "can pay it"), the subaccount the rest; sometimes one token more
+		if b := g.c.Bal(g.c.Acc[o.Signer].Addr); b.IsInt64() && b.Int64() > 0 && b.BigInt().Cmp(o.Amount) < 0 {
+			o.MainDed = b.BigInt()
+			if g.chance(0.3) {
+				o.MainDed = new(big.Int).Add(o.MainDed, big.NewInt(1))
+			}
+			o.SubDed = new(big.Int).Sub(o.Amount, o.MainDed)
+			g.stats["swag_main_whole_balance"]++
+		}
+	}
 	if g.chance(0.03) {
 		o.MainDed.Add(o.MainDed, big.NewInt(1)) // does not add up
 	}
